@@ -59,6 +59,18 @@ var loopPolicies = map[string]loopPolicy{
 	"sbom.(*NodeList).GetNodesByPurlType/Edges":                {skips: map[string]string{"absent-from-index(nodes)": "edges are kept only when their source is a selected node"}},
 	"sbom.(*NodeList).reconnectOrphanNodes/Nodes":              {skips: map[string]string{"present-in-index(roots)": "already a root", "present-in-index(edges)": "the node is the source of an edge, so not an orphan"}},
 	"sbom.(*NodeList).GetRootNodes/Nodes":                      {skips: map[string]string{"absent-from-index": "the root-membership criterion"}},
+	// --- sub-graph extraction (C15): a skip is "already visited", "not a node of the list" or the boundary rule ---
+	"sbom.(*NodeList).connectedIndexRecursion/Nodes": {skips: map[string]string{
+		"dedupe":           "already in the connected index: visited (checked with the recursion guard by traversal-guard)",
+		"present-in-index": "a boundary: another root element is reached but not traversed through"}},
+	"sbom.(*NodeList).NodeSiblings/Edges": {skips: map[string]string{"not:comparison": "only edges leaving the start node are followed (one hop)"}},
+	"sbom.(*NodeList).NodeSiblings/To": {skips: map[string]string{
+		"lookup-miss":      "the target identifier names no node of the list (dangling edge)",
+		"dedupe(identity)": "the target was already collected; the key is the target identifier itself"}},
+	"sbom.(*NodeList).NodeDescendants/[]*sbom.Node": {skips: map[string]string{"dedupe": "already visited at an earlier level"}},
+	"sbom.(*NodeList).NodeDescendants/To": {skips: map[string]string{
+		"present-in-index": "already visited",
+		"lookup-miss":      "the target identifier names no node of the list (dangling edge)"}},
 	// --- SPDX3 (beta) writer ---
 	"beta.(*SPDX3).Serialize/Nodes":                 {skips: map[string]string{"switch-default(sbom.Node_NodeType)": "a node kind outside {PACKAGE, FILE} is an unknown enum number"}},
 	"beta.purposeStringsFromPurpose/[]sbom.Purpose": {skips: map[string]string{"switch-default(sbom.Purpose)": "unknown purpose number"}},
